@@ -167,6 +167,8 @@ impl<T: Qcow2IoOps> Qcow2Dev<T> {
                 // a concurrent flush may have written those refcounts
                 // without having synced them yet
                 self.call_fsync(0, usize::MAX, 0).await?;
+                // and new data clusters which were never zeroed
+                self.zero_new_data_clusters(&l2_table).await?;
                 self.flush_table(&*l2_table, 0, l2_table.byte_size())
                     .await?;
                 l2_handle.set_dirty(false);
